@@ -154,6 +154,16 @@ def scenarios(rng: random.Random, tier: str):
         for end in ("eof 0", "rerr 0 hard", "rx 0 " + nodegen.dpr(n(), n(), spell) + " | eof 0", "adv 9 | adv 4"):
             out.append(nodegen.CONFIGS["out"] + " | start ok,fail | rx 0 " + nodegen.cea(2001, spell, 2001, 268435464, auth="4") +
                        f" | tick | {end} | tick | adv 6 | tick")
+    # the peer is *configured* with capitals in its name and dialled: the dial fails at once, the connect result is a failure,
+    # the CEA never comes, the CEA comes (in the configured or in lower-case spelling) and the connection ends
+    for name in ("Dra1.Example.X", "PEER1.X"):
+        capcfg = nodegen.CONFIGS["out"].replace("peer1.x", name)
+        out.append(capcfg + " | start fail,fail | tick | adv 6 | dial fail,ok | adv 6 | tick")
+        out.append(capcfg + " | start inp,ok | conn 0 fail | tick | adv 6 | tick")
+        out.append(capcfg + " | start ok,ok | adv 5 | tick | adv 6 | tick")
+        for spell in (name, name.lower()):
+            for end in ("eof 0", "rerr 0 hard", "adv 40 | adv 5"):
+                out.append(capcfg + " | start ok,ok | rx 0 " + nodegen.cea(2001, spell, 2001, 268435464, auth="4") + f" | tick | {end} | tick | adv 6 | tick")
     # a persistent peer without addresses (it always connects by itself): after its connection is gone the reconnect passes
     # have nothing to dial, and the record of the disconnect stays
     noaddr = (f"NODE host={nodegen.HOST};realm={nodegen.REALM};peer:peer1.x,{nodegen.REALM},1,1,3,0,0,-,-,-,-;"
